@@ -524,6 +524,22 @@ static void reset(void)
         kobj[i] = i / 2;
     }
     hash_mode = 0;
+    {
+        static const struct cstl_bintree bt_twin = CSTL_BINTREE_INITIALIZER(struct bte, n, cmp_bt, H_PRIV(1));
+        static const struct cstl_rbtree rb_twin = CSTL_RBTREE_INITIALIZER(struct rbe, n, cmp_rb, H_PRIV(2));
+        struct cstl_bintree zb;
+        struct cstl_rbtree zr;
+        memset(&zb, 0, sizeof(zb));
+        memset(&zr, 0, sizeof(zr));
+        cstl_bintree_init(&zb, cmp_bt, H_PRIV(1), offsetof(struct bte, n));
+        cstl_rbtree_init(&zr, cmp_rb, H_PRIV(2), offsetof(struct rbe, n));
+        if (memcmp(&zb, &bt_twin, sizeof(zb)) != 0 || memcmp(&zr, &rb_twin, sizeof(zr)) != 0) {
+            h_init_mismatch = 1;
+        }
+    }
+    H_POISON_OBJ(bt);
+    H_POISON_OBJ(rb);
+    H_POISON_OBJ(map);
     cstl_bintree_init(&bt, cmp_bt, H_PRIV(1), offsetof(struct bte, n));
     cstl_rbtree_init(&rb, cmp_rb, H_PRIV(2), offsetof(struct rbe, n));
     cstl_map_init(&map, cmp_key, H_PRIV(3));
